@@ -7,6 +7,7 @@ package main
 import (
 	"fmt"
 	"go/types"
+	"os"
 	"strings"
 
 	"golang.org/x/tools/go/ssa"
@@ -84,6 +85,24 @@ func init() {
 	})
 	reg(rt+"Preemptions", func(fr *frame, args []Value) Value {
 		fr.e.sched.preemptBudget = int(int64(fr.e.concretize(args[0].(*Term), "preemption budget")))
+		return nil
+	})
+	reg(rt+"Debug", func(fr *frame, args []Value) Value {
+		var parts []string
+		for _, a := range variadic(args[0]) {
+			if iv, ok := a.(Iface); ok {
+				if iv.t != nil && types.Implements(iv.t, errorIface) {
+					if m := fr.e.findMethod(iv.t, "Error"); m != nil {
+						parts = append(parts, "err:"+showD(fr.e.callSSA(fr, 0, m, []Value{iv.v}, nil), 3))
+						continue
+					}
+				}
+				parts = append(parts, showD(iv.v, 4))
+			} else {
+				parts = append(parts, showD(a, 4))
+			}
+		}
+		fmt.Fprintln(os.Stderr, "RT-DEBUG:", strings.Join(parts, " "))
 		return nil
 	})
 	reg(rt+"SetUnwind", func(fr *frame, args []Value) Value {
